@@ -90,6 +90,12 @@ def factor_abs2(comp, w, th):
 
 
 def run(ctx):
+    _run_main(ctx)
+    import reuse_common
+    reuse_common.reuse_check(ctx, "C16")
+
+
+def _run_main(ctx):
     rng = ctx.rng
     ncase = ctx.n(70, 1500)
     nmax = ctx.n(2000, 6000)
